@@ -130,7 +130,9 @@ impl Scenario for SignSc {
             "tags" => {}
             "registry-scale" | "verify-scale" => {
                 p.set("g", (index % 2) as i64);
-                p.set("n", if tier == Tier::Thorough { (1 << 15) + 8 } else { (1 << 12) + 8 });
+                // (VERIF_SCALE_N overrides the number of registrations: used once to try the thorough size in a quick run)
+                let forced = std::env::var("VERIF_SCALE_N").ok().and_then(|v| v.parse::<i64>().ok());
+                p.set("n", forced.unwrap_or(if tier == Tier::Thorough { (1 << 15) + 8 } else { (1 << 12) + 8 }));
                 p.set("scheme", ((index / 2) % 3) as i64);
             }
             "interop-long-lists" => {
@@ -936,7 +938,29 @@ fn run_scale(plan: &Plan, lib: &dyn Lib, rec: &mut Rec) {
     // the same process-wide table (the table's slots would be recycled at other moments than the ones probed below)
     let _ = lib;
     let exe = std::env::current_exe().unwrap();
-    let o = std::process::Command::new(&exe).args(["scale-child", if pop { "pop" } else { "sig" }, &plan.get("g").to_string(), &n.to_string(), &scheme.to_string(), &plan.seed.to_string()]).output();
+    // (the registrar works for a minute or two in the thorough tier: this worker keeps telling the watchdog that it is alive)
+    let o = std::process::Command::new(&exe)
+        .args(["scale-child", if pop { "pop" } else { "sig" }, &plan.get("g").to_string(), &n.to_string(), &scheme.to_string(), &plan.seed.to_string()])
+        .stdout(std::process::Stdio::piped())
+        .stderr(std::process::Stdio::piped())
+        .spawn()
+        .and_then(|mut child| {
+            let started = std::time::Instant::now();
+            loop {
+                match child.try_wait()? {
+                    Some(_) => break,
+                    None if started.elapsed().as_secs() > 3600 => {
+                        let _ = child.kill();
+                        break;
+                    }
+                    None => {
+                        kernel::rec::beat();
+                        std::thread::sleep(std::time::Duration::from_millis(200));
+                    }
+                }
+            }
+            child.wait_with_output()
+        });
     let out = match o {
         Ok(o) if o.status.success() => String::from_utf8_lossy(&o.stdout).to_string(),
         Ok(o) => {
